@@ -51,6 +51,9 @@ def run(ctx):
     _reader(ctx, F)
     _sld(ctx)
     _cromer(ctx, F)
+    # the Cromer-Mann reader and its data (shared with C20-R5): column order a1..a5 c b1..b5, sum a_i + c = Z - charge
+    from .C20 import _cromer as reader_and_data
+    reader_and_data(ctx, F)
     ctx.extra["exhaustive"] = True
 
 
